@@ -10,20 +10,66 @@ def build(case):
     from torch_frame.nn.conv import ExcelFormerConv, FTTransformerConvs, TabTransformerConv, TromptConv
     from torch_frame.nn.decoder import ExcelFormerDecoder, TromptDecoder
     k, c, n = case['kind'], case['c'], case['n']
+    drop = case.get('drop') or {}
     torch.manual_seed(case['seed'])
     if k == 'ft':
-        m = FTTransformerConvs(c, feedforward_channels=case['ffn'], num_layers=case['layers'], nhead=case['heads'])
+        kw = {'dropout': drop['p']} if 'p' in drop else {}            # (the class default is 0.2)
+        m = FTTransformerConvs(c, feedforward_channels=case['ffn'], num_layers=case['layers'], nhead=case['heads'], **kw)
     elif k == 'tabt':
-        m = TabTransformerConv(c, case['heads'])
+        m = TabTransformerConv(c, case['heads'], attn_dropout=drop.get('attn', 0.), ffn_dropout=drop.get('ffn', 0.))
     elif k == 'excel':
-        m = ExcelFormerConv(c, n, case['heads'])
+        m = ExcelFormerConv(c, n, case['heads'], diam_dropout=drop.get('diam', 0.), aium_dropout=drop.get('aium', 0.),
+                            residual_dropout=drop.get('residual', 0.))
     elif k == 'trompt':
-        m = TromptConv(c, n, case['P'])
+        m = TromptConv(c, n, case['P'], **({'num_groups': case['groups']} if 'groups' in case else {}))
     elif k == 'exdec':
         m = ExcelFormerDecoder(c, case['out'], n)
     else:
         m = TromptDecoder(c, case['out'], case['P'])
-    return nngen.randomize(m.double().eval(), case['seed'] + 7)
+    m = m.float() if case.get('dtype') == 'f32' else m.double()
+    return nngen.randomize(m.eval(), case['seed'] + 7)
+
+
+def tol_of(case, outs=()):
+    """float64: the fixed 1e-9 of the property check; the float32 family (oracle only) scales with the output"""
+    if case.get('dtype') != 'f32':
+        return TOL
+    mag = max([1.0] + [float(o.abs().max()) for o in outs if o.numel()])
+    return 2e-4 * mag
+
+
+def apply_history(case, m, x0, xp0, x, xp):
+    """calls made on the SAME module object before the measured forward pass (family 5)"""
+    import torch
+    for h in case.get('hist', []):
+        if h == 'fwd_full':            # evaluation-mode call on the whole base batch
+            forward(case, m, x0, xp0)
+        elif h == 'fwd_batch':         # the very batch (and batch size) that is measured afterwards
+            forward(case, m, x, xp)
+        elif h == 'fwd_one':           # another batch size first
+            forward(case, m, x0[:1], None if xp0 is None else xp0[:1])
+        elif h == 'train_fwd':         # training-mode call (dropout active), then back to evaluation mode
+            m.train()
+            forward(case, m, x0, xp0)
+            m.eval()
+        elif h == 'train_step':        # one optimizer step in training mode, then evaluation mode
+            m.train()
+            opt = torch.optim.SGD(m.parameters(), lr=0.05)
+            opt.zero_grad()
+            o = m(x0, xp0) if case['kind'] == 'trompt' else m(x0)
+            o = o if isinstance(o, tuple) else (o,)
+            sum((t ** 2).mean() for t in o).backward()
+            torch.nn.utils.clip_grad_norm_(m.parameters(), 1.0)        # a small, bounded parameter change
+            opt.step()
+            m.eval()
+        elif h == 'reset':             # reset_parameters(), then the same parameter draw again
+            m.reset_parameters()
+            nngen.randomize(m, case['seed'] + 7)
+        elif h == 'train_eval':        # mode flips only
+            m.train()
+            m.eval()
+        else:
+            raise ValueError(h)
 
 
 def inputs(case):
@@ -36,7 +82,7 @@ def inputs(case):
             shape[1] += 1
         if bad == 'channels':
             shape[2] += 1
-        return nngen.randn(shape, case['seed'] + 1), None
+        return _dt(case, nngen.randn(shape, case['seed'] + 1)), None
     shape = [B0, n, c]
     pshape = [B0, case.get('P', 1), c]
     if bad == 'cols':
@@ -47,9 +93,20 @@ def inputs(case):
         pshape[1] += 1
     if bad == 'pchannels':
         pshape[2] += 1
-    x0 = nngen.randn(shape, case['seed'] + 1)
-    xp0 = nngen.randn(pshape, case['seed'] + 2) if k == 'trompt' else None
+    x0 = _dt(case, nngen.randn(shape, case['seed'] + 1))
+    xp0 = _dt(case, nngen.randn(pshape, case['seed'] + 2)) if k == 'trompt' else None
     return x0, xp0
+
+
+def _dt(case, t):
+    return t.float() if case.get('dtype') == 'f32' else t
+
+
+def _layout(case, t):
+    """the same values behind a non-contiguous view (channels-major storage)"""
+    if t is None or case.get('layout') != 'nc' or t.dim() != 3:
+        return t
+    return t.transpose(1, 2).contiguous().transpose(1, 2)
 
 
 def forward(case, m, x, xp=None):
@@ -90,7 +147,17 @@ class C15(core.Check):
             'columns 1-5, prompts 2/4, out 1-3), generic random parameters in float64 (state_dict exported as bit '
             'patterns), a base batch of 0-4 rows and a batch composition (permutation, duplicates, subset, single, '
             'empty), a column permutation, a causal cut; ~20% of the Trompt cases carry a wrong input shape; '
-            'non-trivial = the layer returns a non-empty tensor; distinct = distinct case hash')
+            'non-trivial = the layer returns a non-empty tensor; distinct = distinct case hash. '
+            'Hardening families (labels scale:* / cfg:* / dtype:* / layout:* / hist:*): ~10% of the cases carry one size from '
+            'the stress ladder of the run\'s level (columns up to 257+ / 1 025+ for the attention layers and 4 097+ for the '
+            'others, batch 513+ / 2 049+ / 4 097+, channels, 4-64 heads, 3-9 layers, prompts, output width); dropout rates '
+            '> 0 for FTTransformerConvs / TabTransformerConv / ExcelFormerConv (inactive in evaluation mode), non-default '
+            'GroupNorm group counts; float32 modules and inputs (judged by the oracle only, tolerance 2e-4 x magnitude, '
+            'causality still exact); non-contiguous input views; earlier calls on the same module (eval forward on the '
+            'batch / the base batch / one row, training-mode forward, one bounded SGD step, mode flips, reset_parameters + '
+            'same draw). Direct oracles added: a fresh module with the same state_dict computes exactly the same; the same '
+            'layer with dropout rate 0 computes exactly the same; inputs are not modified; results handed out earlier are '
+            'not overwritten; causal cuts at several positions for wide ExcelFormer layers')
     partial_notes = (
         'excel_causal is proved under the explicit hypothesis that every masked un-normalised attention weight is '
         'exactly zero (over the reals the -1e5 mask does not give exact independence; it is an IEEE underflow '
@@ -101,7 +168,7 @@ class C15(core.Check):
         'module by generic perturbation of one column',
         'softmax is modelled as exp/sum-exp (documentation); the max-shift of the kernel, float round-off and '
         'overflow are outside the model (compared with rel 1e-9 + abs 1e-12)',
-        'dropout is inactive (evaluation mode); only activation="relu" of FTTransformerConvs is modelled',
+        'dropout is inactive (evaluation mode): the model has no dropout, layers are built with rates 0-0.9; only activation="relu" of FTTransformerConvs is modelled',
     )
     assumptions = (
         'PyTorch primitives (Linear, LayerNorm, GroupNorm, softmax, TransformerEncoderLayer post-norm with packed '
@@ -112,6 +179,10 @@ class C15(core.Check):
     )
 
     # ------------------------------------------------------------------ generation
+    # share of the cases that carry one scale dimension; the sizes come from stress.pick_size(level)
+    SCALE_SHARE = {0: 0.10, 1: 0.03, 2: 0.012}
+    MODEL_FLOATS = 150_000          # above this many exported numbers a case is judged by the oracle only
+
     def generate(self, rng, n, tier):
         for i in range(n):
             kind = KINDS[i % len(KINDS)]
@@ -122,23 +193,114 @@ class C15(core.Check):
                 c += 1
             ncols = rng.randint(1, 5)
             B0 = rng.choice([0, 1, 2, 3, 4, 3, 2, 4, 3, 2])
-            ikind, idx = nngen.gen_idx(rng, B0)
-            perm = list(range(ncols))
-            rng.shuffle(perm)
-            case = {'kind': kind, 'seed': rng.randrange(1 << 30), 'c': c, 'heads': heads, 'n': ncols, 'B0': B0,
-                    'idx_kind': ikind, 'idx': idx, 'perm': perm, 'cut': rng.randrange(ncols),
-                    'col': rng.randrange(ncols)}
+            case = {'kind': kind, 'seed': rng.randrange(1 << 30), 'c': c, 'heads': heads, 'n': ncols, 'B0': B0}
             if kind == 'ft':
                 case['layers'] = rng.choice([1, 2])
                 case['ffn'] = rng.choice([None, c + 2])
             if kind in ('trompt', 'trdec'):
                 case['P'] = rng.choice([2, 4])
+            if kind in ('exdec', 'trdec'):
+                case['out'] = rng.randint(1, 3)
+            if rng.random() < self.SCALE_SHARE.get(self.level, 0.03):
+                self.gen_scale(rng, case)
+            self.gen_config(rng, case)
+            B0, ncols = case['B0'], case['n']
+            ikind, idx = nngen.gen_idx(rng, B0)
+            perm = list(range(ncols))
+            rng.shuffle(perm)
+            case.update({'idx_kind': ikind, 'idx': idx, 'perm': perm, 'cut': rng.randrange(ncols),
+                         'col': rng.randrange(ncols)})
+            if kind in ('trompt', 'trdec') and 'scale' not in case:
                 if idx and rng.random() < 0.2:   # (an empty list-tensor has no shape left to be wrong)
                     case['bad'] = rng.choice(['cols', 'channels', 'prompts', 'pchannels'] if kind == 'trompt'
                                              else ['prompts', 'channels'])
-            if kind in ('exdec', 'trdec'):
-                case['out'] = rng.randint(1, 3)
+            if not case.get('bad'):
+                self.gen_history(rng, case)
             yield case
+
+    def gen_scale(self, rng, case):
+        """family 1: one size of the layer far above the small default (columns > 256, batch > 512 / > 2048,
+        channels, heads, layers >= 3, prompts, output width); the other ingredients stay random"""
+        from harness import stress
+        kind, lvl = case['kind'], self.level
+        attention = kind in ('ft', 'tabt', 'excel')
+        dims = {'ft': ['cols', 'batch', 'channels', 'heads', 'layers'], 'tabt': ['cols', 'batch', 'channels', 'heads'],
+                'excel': ['cols', 'cols', 'batch', 'channels', 'heads'], 'trompt': ['cols', 'batch', 'channels', 'prompts'],
+                'exdec': ['cols', 'batch', 'channels', 'out'], 'trdec': ['batch', 'channels', 'prompts', 'out']}[kind]
+        dim = rng.choice(dims)
+        case['scale'] = dim
+
+        def size(cap):
+            """half of the draws sit on the top rung the level allows (where the gated paths are)"""
+            if rng.random() < 0.5:
+                return max(x for x in stress.ladder(lvl) if x <= cap) + rng.choice([0, 0, 1, 2])
+            return stress.pick_size(rng, lvl, cap)
+        if dim == 'cols':
+            # attention is quadratic in the columns: 1 025 is the ceiling there, the linear layers go on
+            cap = 260 if lvl == 0 else (1030 if attention else (4100 if lvl == 1 else 66000))
+            case['n'] = size(cap)
+            case['B0'] = rng.choice([1, 2, 2, 3]) if case['n'] < 600 else rng.choice([1, 2])
+            # (>= 3 channels per head: LayerNorm over 2 channels is a sign function, which makes "can influence" moot)
+            case['c'] = case['heads'] * rng.choice([3, 4]) if attention else rng.choice([2, 3])
+            if kind == 'ft':
+                case['ffn'] = None
+        elif dim == 'batch':
+            cap = 260 if lvl == 0 else (4100 if lvl == 1 else 66000)
+            if lvl == 0 and rng.random() < 0.5:
+                cap = 520                                        # one step beyond the level-0 ladder: 513(+2) rows
+                case['B0'] = 513 + rng.choice([0, 1, 2])
+            else:
+                case['B0'] = size(cap)
+            case['n'] = rng.randint(1, 3)
+        elif dim == 'channels':
+            cap = 70 if lvl == 0 else 260
+            case['c'] = case['heads'] * size(cap)
+            case['B0'] = rng.choice([1, 2])
+            case['n'] = rng.randint(1, 3)
+            if kind == 'ft':
+                case['ffn'] = None
+        elif dim == 'heads':
+            case['heads'] = rng.choice([4, 8, 16] if lvl == 0 else [4, 8, 16, 32, 64])
+            case['c'] = case['heads'] * rng.choice([1, 2, 3])
+            if kind == 'ft':
+                case['ffn'] = rng.choice([None, case['c'] + 2])
+        elif dim == 'layers':
+            case['layers'] = rng.choice([3, 4] if lvl == 0 else [3, 4, 6, 9])
+        elif dim == 'prompts':
+            case['P'] = 2 * ((size(260 if lvl == 0 else 1030) + 1) // 2)
+            case['groups'] = rng.choice([1, 2, case['P'] // 2, case['P']])
+        elif dim == 'out':
+            case['out'] = size(260 if lvl == 0 else 4100)
+
+    def gen_config(self, rng, case):
+        """families 3 and 6: configurations off the default that evaluation mode must not notice (dropout rates
+        > 0), a non-default group count, float32 parameters and inputs, a non-contiguous input view"""
+        kind = case['kind']
+        r = rng.random
+        if kind == 'ft' and r() < 0.5:
+            case['drop'] = {'p': rng.choice([0.0, 0.1, 0.5, 0.9])}
+        if kind == 'tabt' and r() < 0.5:
+            case['drop'] = {'attn': rng.choice([0.0, 0.3, 0.5, 0.9]), 'ffn': rng.choice([0.0, 0.3, 0.9])}
+        if kind == 'excel' and r() < 0.5:
+            case['drop'] = {'diam': rng.choice([0.0, 0.3, 0.9]), 'aium': rng.choice([0.0, 0.3, 0.9]),
+                            'residual': rng.choice([0.0, 0.3, 0.9])}
+        if kind == 'trompt' and 'groups' not in case and r() < 0.3:
+            case['groups'] = rng.choice([1, case['P']])
+        if r() < 0.04 and case.get('scale') not in ('cols', 'channels', 'batch'):
+            case['dtype'] = 'f32'
+        if r() < 0.08:
+            case['layout'] = 'nc'
+
+    def gen_history(self, rng, case):
+        """family 5: earlier calls on the same module object"""
+        if rng.random() >= 0.3:
+            return
+        steps = ['fwd_full', 'fwd_batch', 'fwd_one', 'reset', 'train_eval']
+        if case['B0'] > 0:
+            steps += ['train_fwd', 'train_fwd', 'train_step', 'train_step']
+        if case.get('scale') in ('cols', 'channels', 'batch', 'prompts', 'out'):
+            steps = [s for s in steps if s != 'train_step']          # (keeps the large cases cheap)
+        case['hist'] = [rng.choice(steps) for _ in range(rng.choice([1, 1, 2, 3]))]
 
     # ------------------------------------------------------------------ real code
     def _run(self, case):
@@ -146,14 +308,21 @@ class C15(core.Check):
         m = build(case)
         x0, xp0 = inputs(case)
         idx = torch.tensor(case['idx'], dtype=torch.long)
-        x = x0[idx]
-        xp = None if xp0 is None else xp0[idx]
+        x = _layout(case, x0[idx])
+        xp = None if xp0 is None else _layout(case, xp0[idx])
         st = {'m': m, 'x0': x0, 'xp0': xp0, 'x': x, 'xp': xp, 'idx': idx}
         try:
+            apply_history(case, m, x0, xp0, x, xp)
+        except Exception as e:  # noqa
+            st['hist_exc'] = f'{type(e).__name__}: {str(e)[:160]}'
+        snap = (x.clone(), None if xp is None else xp.clone())
+        try:
             st['out'] = forward(case, m, x, xp)
+            st['out_snap'] = tuple(o.clone() for o in st['out'])
         except Exception as e:  # noqa
             st['out'] = None
             st['exc'] = type(e).__name__
+        st['input_modified'] = not (torch.equal(x, snap[0]) and (xp is None or torch.equal(xp, snap[1])))
         self._stash = (core.stable_hash(case), st)
         return st
 
@@ -168,7 +337,7 @@ class C15(core.Check):
         if st['out'] is None:
             return 'raises'
         k = case['kind']
-        outs = [o.tolist() for o in st['out']]
+        outs = [o.double().tolist() for o in st['out']]
         if k == 'ft':
             return {'x': outs[0], 'cls': outs[1]}
         if k == 'excel':
@@ -178,7 +347,34 @@ class C15(core.Check):
         return outs[0]
 
     # ------------------------------------------------------------------ model
+    def oracle_only(self, case):
+        """the float32 family (the model is a double-precision model) and inputs whose export exceeds MODEL_FLOATS
+        numbers are judged by the metamorphic oracle on the real module only"""
+        if case.get('dtype') == 'f32':
+            return True
+        k, c, n, B = case['kind'], case['c'], case['n'], len(case['idx'])
+        P = case.get('P', 1)
+        x = B * (P if k == 'trdec' else n) * c + (B * P * c if k == 'trompt' else 0)
+        w = {'ft': case.get('layers', 1) * (4 * c * c + 2 * c * (case.get('ffn') or c)), 'tabt': 4 * c * c + 12 * c * c,
+             'excel': 6 * c * c, 'trompt': 2 * c * c + (n + P) * c, 'exdec': n * case.get('out', 1),
+             'trdec': 2 * c * c + c * case.get('out', 1)}[k]
+        attn = B * case['heads'] * n * n if k in ('ft', 'tabt', 'excel') else 0
+        return x + w > self.MODEL_FLOATS or attn > 2_500_000
+
+    # core.Check.replay prints the model outcome with json.dumps, which cannot render core.SKIP_MODEL: during a replay
+    # an oracle-only case reports a printable marker instead
+    _replaying = False
+
+    def replay(self, path):
+        self._replaying = True
+        return super().replay(path)
+
+    def skip_model(self):
+        return 'oracle-only case: not shipped to the Lean model' if self._replaying else core.SKIP_MODEL
+
     def model_requests(self, case):
+        if self.oracle_only(case):
+            return []
         st = self._state(case)
         m, k = st['m'], case['kind']
         x = nngen.enc(st['x'])
@@ -195,6 +391,8 @@ class C15(core.Check):
         return [{'cmd': 'trdec', 'p': nngen.tromptdec(m), 'x': x}]
 
     def model_outcome(self, case, replies):
+        if not replies:
+            return self.skip_model()
         r = replies[0]
         if r == 'raises':
             return r
@@ -203,6 +401,8 @@ class C15(core.Check):
         return nngen.dec(r)
 
     def equal(self, a, b):
+        if isinstance(b, str) and b.startswith('oracle-only'):
+            return True
         return nngen.tol_equal(a, b)
 
     # ------------------------------------------------------------------ direct oracle on the real modules
@@ -220,9 +420,12 @@ class C15(core.Check):
                 return V(f'accepts-wrong-shape-{case["bad"]}', 'AssertionError',
                          f'output of shape {[tuple(o.shape) for o in st["out"]]}')
             return None
+        if st.get('hist_exc'):
+            return V('raises-on-valid-input', f'the calls {case.get("hist")} before the measured one succeed', st['hist_exc'])
         if st['out'] is None:
             return V('raises-on-valid-input', 'a tensor', st.get('exc'))
         out = st['out']
+        tol = tol_of(case, out)
         # shapes
         want = {'ft': [(B, n, c), (B, c)], 'tabt': [(B, n, c)], 'excel': [(B, n, c)],
                 'trompt': [(B, case.get('P'), c)], 'exdec': [(B, case.get('out'))],
@@ -233,16 +436,39 @@ class C15(core.Check):
         for o in out:
             if not bool(torch.isfinite(o).all()):
                 return V('non-finite output')
+        if st['input_modified']:
+            return V('input-modified', 'the input tensors are unchanged by the call', 'changed in place')
         # determinism
         again = forward(case, m, x, xp)
         if any(not torch.equal(a, b) for a, b in zip(out, again)):
-            return V('non-deterministic')
+            return V('non-deterministic', 'two evaluation-mode calls on the same input agree exactly',
+                     f'max deviation {max(nngen.max_dev(a, b) for a, b in zip(out, again)):.3e}')
+        # the layer is a function of its parameters and its input: whatever was called on this object before,
+        # an identically configured fresh module carrying the same state_dict computes the same thing
+        if case.get('hist') or case.get('drop'):
+            twin = build({k_: v for k_, v in case.items() if k_ != 'hist'})
+            twin.load_state_dict(m.state_dict())
+            tw = forward(case, twin.eval(), x, xp)
+            dev = max(nngen.max_dev(a, b) for a, b in zip(out, tw))
+            if dev != 0.0:
+                return V('history-dependent', f'after {case.get("hist")} the module computes what a fresh module with the '
+                         'same state_dict computes', f'max deviation {dev:.3e}')
+            if case.get('drop'):
+                # dropout is inactive in evaluation mode: the rates cannot matter
+                plain = build({k_: v for k_, v in case.items() if k_ not in ('hist', 'drop')} |
+                              ({'drop': {'p': 0.0}} if k == 'ft' else {}))
+                plain.load_state_dict(m.state_dict())
+                pl = forward(case, plain.eval(), x, xp)
+                dev = max(nngen.max_dev(a, b) for a, b in zip(out, pl))
+                if dev != 0.0:
+                    return V('dropout-active-in-eval', f'dropout rates {case["drop"]} do not change the evaluation-mode '
+                             'output', f'max deviation {dev:.3e} from the same layer with rate 0')
         # row-wise: layer(x0[idx]) == layer(x0)[idx]
         if case['B0'] > 0:
             full = forward(case, m, x0, xp0)
             for a, f in zip(out, full):
                 dev = nngen.max_dev(a, f[idx])
-                if dev > TOL:
+                if dev > tol:
                     return V('not-row-wise', 'layer(x[idx]) == layer(x)[idx]', f'max deviation {dev:.3e}')
         if B == 0:
             return None
@@ -250,17 +476,17 @@ class C15(core.Check):
         if k in ('ft', 'tabt'):
             po = forward(case, m, x[:, perm])
             dev = nngen.max_dev(out[0][:, perm], po[0])
-            if dev > TOL:
+            if dev > tol:
                 return V('not-column-equivariant', 'conv(x[:, perm]) == conv(x)[:, perm]', f'max deviation {dev:.3e}')
             if k == 'ft':
                 dev = nngen.max_dev(out[1], po[1])
-                if dev > TOL:
+                if dev > tol:
                     return V('cls-not-invariant', 'x_cls(x[:, perm]) == x_cls(x)', f'max deviation {dev:.3e}')
         if k in ('ft', 'tabt', 'excel', 'trompt', 'exdec'):
             # every column can influence the output: generic perturbation of one column
             j = case['col']
             x2 = x.clone()
-            x2[:, j] += nngen.randn(x2[:, j].shape, case['seed'] + 3)
+            x2[:, j] += _dt(case, nngen.randn(x2[:, j].shape, case['seed'] + 3))
             o2 = forward(case, m, x2, xp)
             target = o2[1] if k == 'ft' else o2[0]
             base = out[1] if k == 'ft' else out[0]
@@ -270,19 +496,22 @@ class C15(core.Check):
                 # ... and it reaches exactly the columns >= j
                 d = (o2[0] - out[0]).abs().amax(dim=(0, 2))
                 if bool((d[:j] != 0).any()):
-                    return V('not-causal', f'columns < {j} unaffected by column {j}', d.tolist())
+                    return V('not-causal', f'columns < {j} unaffected by column {j}',
+                             [i for i in range(j) if float(d[i]) != 0][:8])
                 if bool((d[j:] == 0).any()):
-                    return V('no-prefix-dependence', f'columns >= {j} depend on column {j}', d.tolist())
+                    return V('no-prefix-dependence', f'columns >= {j} depend on column {j}',
+                             [i for i in range(j, n) if float(d[i]) == 0][:8])
         if k == 'excel':
-            i = case['cut']
-            if i + 1 < n:
-                x2 = x.clone()
-                x2[:, i + 1:] += nngen.randn(x2[:, i + 1:].shape, case['seed'] + 4, scale=3.0)
-                o2 = forward(case, m, x2)
-                dev = nngen.max_dev(o2[0][:, :i + 1], out[0][:, :i + 1])
-                if dev != 0.0:
-                    return V('not-causal', f'output columns <= {i} unchanged (exactly) by columns > {i}',
-                             f'max deviation {dev:.3e}')
+            cuts = [case['cut']] + ([n - 2, n // 2, 0] if n > 8 else [])
+            for i in cuts:
+                if 0 <= i and i + 1 < n:
+                    x2 = x.clone()
+                    x2[:, i + 1:] += _dt(case, nngen.randn(x2[:, i + 1:].shape, case['seed'] + 4, scale=3.0))
+                    o2 = forward(case, m, x2)
+                    dev = nngen.max_dev(o2[0][:, :i + 1], out[0][:, :i + 1])
+                    if dev != 0.0:
+                        return V('not-causal', f'output columns <= {i} unchanged (exactly) by columns > {i}',
+                                 f'max deviation {dev:.3e}')
             if not masked_underflow(m, x):
                 return V('mask-does-not-underflow', 'exp of every masked score is exactly 0.0', 'non-zero weight')
         if k == 'trompt':
@@ -296,6 +525,9 @@ class C15(core.Check):
                     pass
                 except Exception:
                     pass
+        # results handed out earlier stay what they were (no shared output buffer)
+        if any(not torch.equal(a, b) for a, b in zip(out, st['out_snap'])):
+            return V('output-overwritten', 'a returned tensor is not changed by later calls', 'changed')
         return None
 
     def nontrivial_key(self, case, r):
@@ -303,16 +535,46 @@ class C15(core.Check):
             return None
         return core.stable_hash(case)
 
+    @staticmethod
+    def bucket(v):
+        for t in (65537, 16385, 4097, 2049, 1025, 513, 257, 129, 65, 33, 17):
+            if v >= t:
+                return f'{t}+'
+        return 'small'
+
     def classify(self, case, r):
         labs = [f"kind:{case['kind']}", f"batch:{min(len(case['idx']), 5)}", f"compose:{case['idx_kind']}",
-                f"heads:{case['heads']}", f"cols:{case['n']}", f"channels:{case['c']}",
+                f"heads:{case['heads']}", f"cols:{min(case['n'], 6)}", f"channels:{min(case['c'], 9)}",
                 'outcome:raises' if r == 'raises' else 'outcome:ok']
         if case.get('bad'):
             labs.append(f"bad-shape:{case['kind']}/{case['bad']}")
         if case['kind'] == 'ft':
-            labs.append(f"ft-layers:{case['layers']}")
+            labs.append(f"ft-layers:{min(case['layers'], 3)}")
         if case['kind'] == 'excel' and isinstance(r, dict):
             labs.append(f"excel-underflow:{r['underflow']}")
+        if 'scale' in case:
+            dim = case['scale']
+            v = {'cols': case['n'], 'batch': len(case['idx']), 'channels': case['c'], 'heads': case['heads'],
+                 'layers': case.get('layers', 0), 'prompts': case.get('P', 0), 'out': case.get('out', 0)}[dim]
+            labs.append(f"scale:{dim}:{self.bucket(v) if dim not in ('heads', 'layers') else v}")
+            if dim == 'batch':
+                labs.append(f"scale:base-batch:{self.bucket(case['B0'])}")
+            if dim == 'cols':
+                labs.append(f"scale:cols:{case['kind']}:{self.bucket(v)}")
+        if case.get('drop') and any(v > 0 for v in case['drop'].values()):
+            labs.append(f"cfg:dropout>0:{case['kind']}")
+        if 'groups' in case:
+            labs.append('cfg:trompt-groups:' + ('1' if case['groups'] == 1 else 'P' if case['groups'] == case['P'] else 'other'))
+        if case.get('dtype') == 'f32':
+            labs.append('dtype:float32(oracle-only)')
+        if case.get('layout') == 'nc':
+            labs.append('layout:non-contiguous')
+        for h in case.get('hist', []):
+            labs.append(f'hist:{h}')
+        if case.get('hist'):
+            labs.append('hist:any')
+        if self.oracle_only(case):
+            labs.append('oracle-only')
         return labs
 
 
